@@ -6,7 +6,8 @@
 //!      the same with `receive_pdata()` reading the payload and `receive()` returning the A-RELEASE-RQ after it;
 //!  (2) acceptor side: a hand-written requestor sends A-ASSOCIATE-RQ + P-DATA-TF + A-RELEASE-RQ in ONE write:
 //!      after `establish`, `receive()` returns the two PDUs in order;
-//!  (3) the same three-PDU stream delivered byte by byte.
+//!  (3) the same three-PDU stream delivered byte by byte;
+//!  (4) the asynchronous requestor (tokio) against the same hand-written acceptor.
 //! Skipped (never failed) where the sandbox has no loopback TCP.
 use dicom_ul::association::client::ClientAssociationOptions;
 use dicom_ul::association::server::ServerAssociationOptions;
@@ -120,6 +121,50 @@ fn main() {
                 }
             }
             Err(e) => t.check(false, || format!("{}: accept failed: {}", label, e)),
+        }
+        let _ = peer.join();
+    }
+    // (4) the ASYNCHRONOUS requestor: same hand-written acceptor, AC + P-DATA + RELEASE-RQ in one write and byte by byte
+    let rt = tokio::runtime::Builder::new_multi_thread().worker_threads(2).enable_all().build().expect("runtime");
+    for byte_by_byte in [false, true] {
+        let listener = TcpListener::bind("127.0.0.1:0").unwrap();
+        let addr = listener.local_addr().unwrap();
+        let peer = std::thread::spawn(move || -> Option<()> {
+            let (mut s, _) = listener.accept().ok()?;
+            s.set_read_timeout(Some(Duration::from_secs(60))).ok()?;
+            let rq = read_one_pdu(&mut s)?;
+            let contexts = match rq { Pdu::AssociationRQ(rq) => rq.presentation_contexts, _ => return None };
+            let ac = Pdu::AssociationAC(AssociationAC { protocol_version: 1, calling_ae_title: "THIS-SCU".into(), called_ae_title: "ANY-SCP".into(),
+                application_context_name: "1.2.840.10008.3.1.1.1".into(),
+                presentation_contexts: contexts.iter().map(|c| PresentationContextResult { id: c.id, reason: PresentationContextResultReason::Acceptance, transfer_syntax: IMPLICIT.into() }).collect(),
+                user_variables: vec![UserVariableItem::MaxLength(16384), UserVariableItem::ImplementationClassUID("1.2.3".into())] });
+            let mut bytes = Vec::new();
+            write_pdu(&mut bytes, &ac).ok()?;
+            write_pdu(&mut bytes, &pdata(&payload)).ok()?;
+            write_pdu(&mut bytes, &Pdu::ReleaseRQ).ok()?;
+            if byte_by_byte { for b in &bytes { s.write_all(&[*b]).ok()?; s.flush().ok()?; } } else { s.write_all(&bytes).ok()?; }
+            let _ = read_one_pdu(&mut s);
+            Some(())
+        });
+        let label = format!("asynchronous requestor, acceptor sends AC + P-DATA + RELEASE-RQ {}", if byte_by_byte { "byte by byte" } else { "in one write" });
+        let results = rt.block_on(async {
+            match tokio::time::timeout(Duration::from_secs(60), ClientAssociationOptions::new().with_abstract_syntax(ABSTRACT).establish_async(addr)).await {
+                Ok(Ok(mut assoc)) => {
+                    let a = tokio::time::timeout(Duration::from_secs(60), assoc.receive()).await.map_err(|_| "timeout".to_string()).and_then(|r| r.map_err(|e| e.to_string()));
+                    let b = tokio::time::timeout(Duration::from_secs(60), assoc.receive()).await.map_err(|_| "timeout".to_string()).and_then(|r| r.map_err(|e| e.to_string()));
+                    let _ = assoc.send(&Pdu::ReleaseRP).await;
+                    Ok((a, b))
+                }
+                Ok(Err(e)) => Err(e.to_string()),
+                Err(_) => Err("timeout".to_string()),
+            }
+        });
+        match results {
+            Ok((a, b)) => {
+                t.check(matches!(&a, Ok(x) if *x == pdata(&payload)), || format!("{}: first receive() = {:?}", label, a.map(|x| x.short_description().to_string())));
+                t.check(matches!(&b, Ok(Pdu::ReleaseRQ)), || format!("{}: next receive() = {:?}, expected A-RELEASE-RQ", label, b.map(|x| x.short_description().to_string())));
+            }
+            Err(e) => t.check(false, || format!("{}: establish failed: {}", label, e)),
         }
         let _ = peer.join();
     }
